@@ -32,6 +32,7 @@ func genMux(seed uint64, n int, maxOps int, demux bool, emit func(interface{})) 
 		sc := muxScenario{SID: fmt.Sprintf("mr-%d-%d", seed, s), Kind: "mux", Seed: r.u64() >> 1, Demux: demux}
 		sc.Period = r.pick(1, 2, 3, 5, 40, r.rangeInt(1, 50))
 		sc.Reuse = s%2 == 1
+		sc.Shadow = s%3 == 2
 		if s%12 == 5 {
 			genMuxSweep(r, &sc, demux)
 			emit(sc)
